@@ -99,7 +99,7 @@ func jcCheckNumber(x float64) string {
 
 // ---- value generator and reference encoder
 
-var jcRunes = []rune{'a', 'Z', '0', ' ', '"', '\\', '/', '\b', '\f', '\n', '\r', '\t', 0x00, 0x01, 0x1f, 0x7f, 0x80, 0xe9, 0x20ac, 0xd7ff, 0xe000, 0xfb33, 0xfffd, 0xffff, 0x10000, 0x1f600, 0x10ffff, '<', '>', '&'}
+var jcRunes = []rune{'a', 'Z', '0', ' ', '"', '\\', '/', '\b', '\f', '\n', '\r', '\t', 0x00, 0x01, 0x1f, 0x7f, 0x80, 0xe9, 0x20ac, 0xd7ff, 0xe000, 0xfb33, 0xfffd, 0xffff, 0x10000, 0x1f600, 0x10ffff, '<', '>', '&', 0x2028, 0x2029, 0x85, 0xa0, 0xfeff}
 
 func jcString(r *rand.Rand) string {
 	n := r.Intn(5)
